@@ -54,7 +54,7 @@ impl World for TableWorld {
         "table"
     }
     fn properties(&self) -> &'static [&'static str] {
-        &["C02"]
+        &["C02", "C11"]
     }
 
     fn generate(&self, run_seed: u64, target: &str, thorough: bool) -> Plan {
@@ -63,7 +63,7 @@ impl World for TableWorld {
         let mut o = Rng::stream(run_seed, "ops");
         let mut p = Rng::stream(run_seed, "placement");
         // 1 run in 256 (quick) is the shipped-capacity scenario
-        let shipped = c.below(if thorough { 64 } else { 256 }) == 0;
+        let shipped = target != "C11" && c.below(if thorough { 64 } else { 256 }) == 0;
         cfg.insert("shipped".into(), shipped as i64);
         cfg.insert("hseed".into(), (c.next() >> 1) as i64);
         cfg.insert("place_off".into(), (p.below(4096) * 16) as i64);
@@ -84,7 +84,7 @@ impl World for TableWorld {
             let caps = [1, 2, 3, 4, 5, 8, 16, 64];
             cfg.insert("table_cap".into(), *c.pick(&caps));
             cfg.insert("hmode".into(), c.below(7) as i64);
-            cfg.insert("by_hash".into(), (c.below(4) == 0) as i64);
+            cfg.insert("by_hash".into(), if target == "C11" { 1 } else if target == "C02" { 0 } else { (c.below(4) == 0) as i64 });
             let small = c.bool();
             let nkeys = 1 + c.below(if small { 12 } else { 120 }) as i64;
             cfg.insert("nkeys".into(), nkeys);
@@ -118,10 +118,13 @@ impl World for TableWorld {
     }
 
     fn execute(&self, plan: &Plan, ctx: &mut Ctx) -> R {
-        ctx.cur_prop = "C02";
         let mode = plan.get("hmode");
         let hseed = plan.get("hseed") as u64;
         let by_hash = plan.get("by_hash") != 0;
+        // identity-by-hash (get_or_insert_by_hash(.., true) / get_by_hash) is only used by the hash-identified
+        // builders of C11; structural identity is what the BDD/SDD unique tables of C02/C04 use
+        let prop: &'static str = if by_hash { "C11" } else { "C02" };
+        ctx.cur_prop = prop;
         let tbl: *mut BackedRobinhoodTable<'static, u64> =
             Box::leak(Box::new(BackedRobinhoodTable::<u64>::new()));
         // reference model: identity -> first address
@@ -140,19 +143,19 @@ impl World for TableWorld {
             ctx.ev(10, &[k, h, a as u64]);
             match model.get(&id) {
                 Some(prev) => {
-                    ctx.check("C02", "table-same-key-same-address", *prev == a, || {
+                    ctx.check(prop, "table-same-key-same-address", *prev == a, || {
                         format!("key {k} (hash {h:#x}) was stored at {prev:#x} but a second copy was handed out at {a:#x}")
                     })?;
                     let expect = *first_key.get(&id).unwrap();
-                    ctx.check("C02", "table-stored-value", *r == expect, || {
+                    ctx.check(prop, "table-stored-value", *r == expect, || {
                         format!("address {a:#x} holds {} but key {expect} was stored there", *r)
                     })?;
                 }
                 None => {
-                    ctx.check("C02", "table-distinct-keys-distinct-addresses", !addrs.contains(&a), || {
+                    ctx.check(prop, "table-distinct-keys-distinct-addresses", !addrs.contains(&a), || {
                         format!("new key {k} was given address {a:#x} which already holds another key")
                     })?;
-                    ctx.check("C02", "table-stored-value", *r == k, || {
+                    ctx.check(prop, "table-stored-value", *r == k, || {
                         format!("address {a:#x} holds {} right after inserting {k}", *r)
                     })?;
                     model.insert(id, a);
@@ -161,7 +164,7 @@ impl World for TableWorld {
                 }
             }
             let n = unsafe { (*tbl).num_nodes() };
-            ctx.check("C02", "table-num-nodes", n == model.len(), || {
+            ctx.check(prop, "table-num-nodes", n == model.len(), || {
                 format!("num_nodes() = {n} but {} distinct keys were inserted", model.len())
             })?;
             Ok(())
@@ -190,7 +193,7 @@ impl World for TableWorld {
                     seen.sort_unstable();
                     let mut expect: Vec<u64> = first_key.values().copied().collect();
                     expect.sort_unstable();
-                    ctx.check("C02", "table-iter-each-key-once", seen == expect, || {
+                    ctx.check(prop, "table-iter-each-key-once", seen == expect, || {
                         format!("iter() yields {} entries, model has {} keys (first difference at {:?})",
                             seen.len(), expect.len(),
                             seen.iter().zip(expect.iter()).position(|(a, b)| a != b))
@@ -203,7 +206,7 @@ impl World for TableWorld {
                         let h = hash_of(mode, hseed, k);
                         let r = unsafe { (*tbl).get_by_hash(h) }.map(|r| r as *const u64 as usize);
                         let want = model.get(&h).copied();
-                        ctx.check("C02", "table-get-by-hash", r == want, || {
+                        ctx.check(prop, "table-get-by-hash", r == want, || {
                             format!("get_by_hash({h:#x}) = {r:x?}, model says {want:x?}")
                         })?;
                         ctx.ev(13, &[h, r.unwrap_or(0) as u64]);
